@@ -164,6 +164,8 @@ class Gen:
             s = d.choice(first)
             for _ in range(n - 1):
                 s += d.choice(rest)
+            if cls == "var" and not prefix and d.bool(0.08):
+                s = s.rstrip("_") + "_t"      # names shaped like standard typedef names are ordinary identifiers too
             s = prefix + s
             if s in KEYWORDS or s in SPECIAL_NAMES or s in self.used or s.endswith("_"):
                 continue
@@ -238,7 +240,7 @@ class Gen:
             choices.append((2, "macro"))
         choices.append((1, "char"))
         if depth > 0:
-            choices += [(2, "paren"), (2, "unary"), (2, "cast"), (1, "sizeof")]
+            choices += [(3, "paren"), (2, "unary"), (2, "cast"), (1, "sizeof")]
             if allow_call:
                 choices.append((3, "call"))
             if env.any_lvalues():
@@ -268,6 +270,9 @@ class Gen:
             return [Lx(n, "id"), Lx("->", "op", ("member",)), Lx(d.choice(mem), "id", ("member-name",))]
         if k == "paren":
             self.tag("paren")
+            if env.ints and d.bool(0.5):
+                self.tag("paren:lone-identifier")
+                return [Lx("(", "par", ("paren-ident-open",)), Lx(d.choice(env.ints), "id"), Lx(")", "par", ("paren-ident-close",))]
             return [Lx("(", "par")] + self.expr(env, depth - 1, 40, top=False) + [Lx(")", "par")]
         if k == "unary":
             op = d.choice(UNOPS)
@@ -404,6 +409,8 @@ class Gen:
             lex = self.atom(env, dep)
             for _ in range(n - 1):
                 op = d.choice(ops or BINOPS)
+                if "paren-ident-close" in lex[-1].tags and d.bool(0.6):
+                    op = d.choice(["+", "-"])
                 self.tag("binop:" + op)
                 lex += [SP(), Lx(op, "op", ("binop", "binop:" + op)), SP()] + self.atom(env, dep)
             if self.width(lex) <= budget:
